@@ -12,6 +12,7 @@ LEAF_IDS = ["a", "b", "c", "d", "e", "f", "g", "h", "i", "j", "k", "l"]
 ODD_IDS = ["", " ", "a,b", "x'y", "(", ")", "ä", "日本", "VARx", "0", "1", "A", "-1", "a b", "\n", "\\", '"q"', "ab", "bc"]
 INT16 = [(-32768, 32767), (0, 32767), (-32768, 0)]
 HUGE = [(0, 3_000_000_000), (-3_000_000_000, 5), (2_500_000_000, 2_500_000_003)]
+WINDOWS = [(32760, 32775), (-32775, -32762), (70000, 70003), (-100002, -100000), (32767, 32769)]      # narrow ranges beyond 16 bits (enumerable)
 TWINS = [((0, 3), (1, 2)), ((-1, 3), (-2, 3)), ((-1, 1), (-2, 1)), ((0, 5), (2, 3))]
 
 KINDS = ["All", "Any", "AtLeast", "AtLeastS", "AtMost", "Xor", "ExactlyOne", "XNor", "Imply", "Not"]
@@ -31,6 +32,7 @@ class Opts:
         self.p_big = 0.2            # ... of which int16 extreme
         self.p_const_leaf = 0.12    # ... of which constant (k,k)
         self.p_huge = 0.0           # ... of which wider than 32 bits (only where the oracle is written in Python ints)
+        self.p_window = 0.0         # ... of which a narrow window beyond 16 bits
         self.p_explicit = 0.5
         self.p_share = 0.12         # identity sharing of an already built sub-model
         self.p_copy = 0.05          # equal copy of an already generated sub-recipe
@@ -62,6 +64,8 @@ def make_pool(rng, o):
                 b = rng.choice(INT16) if o.neg_bounds else (0, 32767)
             elif t < o.p_const_leaf + o.p_big + o.p_huge:
                 b = rng.choice(HUGE)
+            elif t < o.p_const_leaf + o.p_big + o.p_huge + o.p_window:
+                b = rng.choice(WINDOWS)
             else:
                 lo = rng.randint(-3 if o.neg_bounds else 0, 2)
                 b = (lo, lo + rng.randint(1, 4))
